@@ -54,7 +54,7 @@ def main(args):
         to_delete: List[pathlib.Path] = []
 
         for inner in curr_path.iterdir():
-            if not inner.is_dir():
+            if inner.is_symlink() or not inner.is_dir():
                 continue
             exp_match = _EXPERIMENT_TASK_REGEX.match(inner.name)
             if exp_match is None:
